@@ -1,4 +1,4 @@
-// VERIF: lib rc quick_shards=4
+// VERIF: lib rc quick_shards=4 fuzz=json_grammar_inputs,options_random_vectors
 // C01 (options / parse part of the registry) - safe API is total: options::impl::is_flag / next_arg,
 // options::parse / parse_help on arbitrary argument vectors, parse::phrase_parse_string / parse_stream
 // on arbitrary input for a JSON grammar. Oracle: sanitizers, catch(...) with a whitelist, watchdog,
